@@ -217,6 +217,18 @@ def run(ctx):
             if m.mult > 3:
                 m.mult = 3
         run_case(ctx, st, pt, p, kw, charge, adducts, iso, loss, prec, mono, 'mass' if i % 3 else 'mz')
+    # whole-protein inputs (1001..1400 residues: past any threshold a long-sequence path might use) with global rules;
+    # numeric and formula modifications only, so that no six-decimal vocabulary row is multiplied by hundreds of copies
+    cfg_long = gp.GenCfg(min_len=1001, max_len=1400, letters=LETTERS, weights=dict(gp.W_NUMFORM),
+                         static_weights=dict(gp.W_NUMFORM), p_isotope=0.0, p_mult=0.1, p_res=0.003, p_interval=0.2,
+                         p_unknown=0.2, p_labile=0.25, p_static=0.85, p_static_term=0.4, p_charge=0.4)
+    for i in range(ctx.n(32, 640)):
+        p, kw, charge, adducts, iso, loss, prec, mono = gen_case(ctx.rng, cfg_long)
+        for m in p.all_mods():
+            if m.mult > 3:
+                m.mult = 3
+        run_case(ctx, st, pt, p, kw, charge, adducts, iso, loss, prec, mono, 'mass' if i % 3 else 'mz',
+                 extra_sig=('whole-protein',))
     # every Unimod entry: quick = one placement each (rotating), thorough = every placement, both modes
     ents = gp.vocab().unimod
     k = 0
